@@ -1,1 +1,3 @@
 pub mod go_clean;
+pub mod invariants;
+pub mod tree;
